@@ -291,6 +291,32 @@ Definition check_names (e : est) (dunder : string -> bool) : bool :=
   nodupb (step_names e) && forallb (fun n => negb (smem n (param_names e))) (step_names e) &&
   has_dunder_free (step_names e) dunder.
 
+(* ---------------------------------------------------------------- well-formed trees *)
+(* What Python and _check_names guarantee: distinct parameter names; for a composite the component
+   list is present, component names are distinct and do not shadow a parameter; a private list key
+   (ColumnEnsembleClassifier's "_estimators") is not itself a parameter or component name. *)
+Definition wf_here (e : est) : bool :=
+  nodupb (param_names e) &&
+  match meta (cls_of e) with
+  | None => true
+  | Some (akey, sp) =>
+      match assoc_v sp (params_of e) with Some (VSteps _) => true | _ => false end &&
+      nodupb (step_names e) &&
+      forallb (fun n => negb (smem n (param_names e))) (step_names e) &&
+      (String.eqb akey sp || negb (smem akey (valid_heads e)))
+  end.
+
+Fixpoint wf (e : est) {struct e} : bool :=
+  wf_here e &&
+  match e with
+  | Est _ ps => forallb (fun kvp : string * value =>
+                           match snd kvp with
+                           | VAtom _ => true
+                           | VEst c => wf c
+                           | VSteps l => forallb (fun ne : string * est => wf (snd ne)) l
+                           end) ps
+  end.
+
 End WithMeta.
 
 (* ---------------------------------------------------------------- fitted-state machine *)
